@@ -14,25 +14,25 @@ Ltac rops := cbv beta iota zeta delta [R_ops o_ltb o_leb o_eqb o_add o_sub o_mul
 
 Theorem DTLZI_evaluate_gen_eq_model : forall m x, DTLZI_evaluate_gen_R m x = dtlz1 m x.
 Proof.
-  intros. unfold DTLZI_evaluate_gen_R, DTLZI_evaluate_gen, DTLZI_evaluate_l1_body, DTLZI_evaluate_l2_body. rops.
+  intros. unfold DTLZI_evaluate_gen_R, DTLZI_evaluate_gen. rops.
   rewrite fold_append_map. reflexivity.
 Qed.
 
 Theorem DTLZII_evaluate_gen_eq_model : forall m x, DTLZII_evaluate_gen_R m x = dtlz2 m x.
 Proof.
-  intros. unfold DTLZII_evaluate_gen_R, DTLZII_evaluate_gen, DTLZII_evaluate_l1_body, DTLZII_evaluate_l2_body, DTLZII_evaluate_l3_body. rops.
+  intros. unfold DTLZII_evaluate_gen_R, DTLZII_evaluate_gen. rops.
   rewrite fold_append_map. reflexivity.
 Qed.
 
 Theorem DTLZIII_evaluate_gen_eq_model : forall m x, DTLZIII_evaluate_gen_R m x = dtlz3 m x.
 Proof.
-  intros. unfold DTLZIII_evaluate_gen_R, DTLZIII_evaluate_gen, DTLZIII_evaluate_l1_body, DTLZIII_evaluate_l2_body, DTLZIII_evaluate_l3_body. rops.
+  intros. unfold DTLZIII_evaluate_gen_R, DTLZIII_evaluate_gen. rops.
   rewrite fold_append_map. reflexivity.
 Qed.
 
 Theorem DTLZIV_evaluate_gen_eq_model : forall m x, DTLZIV_evaluate_gen_R m x = dtlz4 m x.
 Proof.
-  intros. unfold DTLZIV_evaluate_gen_R, DTLZIV_evaluate_gen, DTLZIV_evaluate_l1_body, DTLZIV_evaluate_l2_body, DTLZIV_evaluate_l3_body. rops.
+  intros. unfold DTLZIV_evaluate_gen_R, DTLZIV_evaluate_gen. rops.
   rewrite fold_append_map. reflexivity.
 Qed.
 
